@@ -20,7 +20,6 @@ import (
 	"github.com/meshplus/bitxhub-kit/crypto/asym"
 	"github.com/meshplus/bitxhub-kit/storage"
 	"github.com/meshplus/bitxhub-kit/storage/blockfile"
-	"github.com/meshplus/bitxhub-kit/storage/leveldb"
 	"github.com/meshplus/bitxhub-kit/types"
 	"github.com/meshplus/bitxhub-model/pb"
 	"github.com/meshplus/bitxhub/internal/executor"
@@ -106,18 +105,30 @@ type Stores struct {
 
 type Wrap func(storage.Storage) storage.Storage
 
-// OpenFull = what app.GenerateBitXHubWithoutOrder does: chain db, state db, NewBlockFile, ledger.New.
-func OpenFull(dir string, wrapChain, wrapState Wrap) (*Stores, error) {
-	// the layout of app.GenerateBitXHubWithoutOrder: <root>/storage/{blockchain,ledger,blockfile}
-	cs, err := leveldb.New(filepath.Join(dir, "storage", "blockchain"))
+// ledgerConf: the [ledger] section of bitxhub.toml; kind is leveldb_type: "normal" (goleveldb,
+// ordered batches) or "multi" (bitxhub-kit multi-layer leveldb: a batch applies all Puts, then
+// all Deletes).  "" means "normal".
+func ledgerConf(kind string) *repo.Ledger {
+	if kind == "" {
+		kind = ledger.NormalLeveldb
+	}
+	return &repo.Ledger{Type: "simple", LeveldbType: kind}
+}
+
+// OpenFull = what app.GenerateBitXHubWithoutOrder does: ledger.OpenChainDB, ledger.OpenStateDB (both
+// through the configured leveldb_type), NewBlockFile, ledger.New; layout <root>/storage/{blockchain,ledger,blockfile}.
+func OpenFull(dir, kind string, wrapChain, wrapState Wrap) (*Stores, error) {
+	lc := ledgerConf(kind)
+	cs, err := ledger.OpenChainDB(repo.GetStoragePath(dir, "blockchain"), lc)
 	if err != nil {
 		return nil, fmt.Errorf("open chain db: %w", err)
 	}
-	ss, err := leveldb.New(filepath.Join(dir, "storage", "ledger"))
+	ssI, err := ledger.OpenStateDB(repo.GetStoragePath(dir, "ledger"), lc)
 	if err != nil {
 		cs.Close()
 		return nil, fmt.Errorf("open state db: %w", err)
 	}
+	ss := ssI.(storage.Storage)
 	bf, err := blockfile.NewBlockFile(dir, Logger())
 	if err != nil {
 		cs.Close()
@@ -132,6 +143,7 @@ func OpenFull(dir string, wrapChain, wrapState Wrap) (*Stores, error) {
 		s = wrapState(ss)
 	}
 	rp := Repo()
+	rp.Config.Ledger = *lc
 	l, err := ledger.New(rp, c, s, bf, nil, Logger())
 	if err != nil {
 		cs.Close()
@@ -144,9 +156,16 @@ func OpenFull(dir string, wrapChain, wrapState Wrap) (*Stores, error) {
 	return st, nil
 }
 
+// OpenView creates the read-only view ledger the way app.GenerateBitXHubWithoutOrder does right
+// after ledger.New: a second SimpleLedger on the SAME state store.
+func (s *Stores) OpenView() error {
+	_, err := ledger.NewSimpleLedger(s.Repo, s.State, nil, Logger())
+	return err
+}
+
 // OpenChain opens the chain ledger alone (NewChainLedgerImpl).
-func OpenChain(dir string) (*Stores, error) {
-	cs, err := leveldb.New(filepath.Join(dir, "storage", "blockchain"))
+func OpenChain(dir, kind string) (*Stores, error) {
+	cs, err := ledger.OpenChainDB(repo.GetStoragePath(dir, "blockchain"), ledgerConf(kind))
 	if err != nil {
 		return nil, err
 	}
@@ -400,10 +419,11 @@ type TObs struct {
 	RC   R `json:"rc"`
 }
 type Obs struct {
-	Meta [3]uint64 `json:"meta"`
-	HS   []HObs    `json:"hs"`
-	XS   []R       `json:"xs"`
-	TS   []TObs    `json:"ts"`
+	Meta   [3]uint64 `json:"meta"`
+	Stored [3]uint64 `json:"stored"` // LoadChainMeta: what a fresh process would read from the store
+	HS     []HObs    `json:"hs"`
+	XS     []R       `json:"xs"`
+	TS     []TObs    `json:"ts"`
 }
 
 // Observe performs every lookup of the chain ledger over the universe.
@@ -412,6 +432,15 @@ func Observe(s *Stores, t *Tables, kh int, hashes []*types.Hash, txs []*types.Ha
 	var o Obs
 	m := cl.GetChainMeta()
 	o.Meta = [3]uint64{m.Height, t.In.Hash(m.BlockHash), m.InterchainTxCount}
+	func() {
+		defer func() {
+			if recover() != nil {
+				o.Stored = [3]uint64{^uint64(0), 0, 0}
+			}
+		}()
+		sm := cl.LoadChainMeta()
+		o.Stored = [3]uint64{sm.Height, t.In.Hash(sm.BlockHash), sm.InterchainTxCount}
+	}()
 	for h := uint64(0); h <= uint64(kh); h++ {
 		var ho HObs
 		ho.Full = guard(func() R {
